@@ -126,6 +126,40 @@ theorem good_ensure (E : Env) (hok : E.ok) (sid : WireName) (x : LC) (h1 : (sid,
   rw [e3] at this
   simp [this]
 
+/-- the first equation written by `ensure_single` under an active guard: `0 * 0 = ret - x + dummy`,
+`dummy` holding 0 -/
+theorem good_ensure_guarded (E : Env) (hok : E.ok) (sid dm : WireName) (x : LC) (h1 : (sid, x.value) ∈ E.W)
+    (h2 : (dm, 0) ∈ E.W) (hc : Coherent E x) :
+    Good E (conLine [] [] (Sig.add (Sig.sub E.p [(1, sid)] x.sig) [(1, dm)])) := by
+  have a1 := asg_of_mem E hok sid x.value (by simp [h1])
+  have a2 := asg_of_mem E hok dm 0 (by simp [h2])
+  obtain ⟨u, hu, hm⟩ := hc
+  obtain ⟨v, hv, hvm⟩ := evalLC_neg E.p E.asg x.sig u hu
+  have e1 : evalLC E.asg [(1, sid)] = some (1 * x.value + 0) := by simp [evalLC, a1]
+  have e2 := evalLC_append E.asg [(1, sid)] (Sig.neg E.p x.sig) _ _ e1 hv
+  have e3 : evalLC E.asg [(1, dm)] = some (1 * 0 + 0) := by simp [evalLC, a2]
+  have e4 := evalLC_append E.asg ([(1, sid)] ++ Sig.neg E.p x.sig) [(1, dm)] _ _ e2 e3
+  apply good_con
+  simp only [ConHold, Stmt.holds, Sig.sub, Sig.add, e4, evalLC]
+  simp only [Option.some.injEq, decide_eq_true_eq]
+  have : (1 * x.value + 0 + v) % E.p = 0 := by
+    have e : (1 * x.value + 0 + v) = (v + u) + (x.value - u) := by ring
+    rw [e, Int.add_emod, hvm]
+    have : (x.value - u) % E.p = 0 := by
+      rw [Int.sub_emod, hm]; simp
+    rw [this]; simp
+  have e5 : (1 * x.value + 0 + v + (1 * 0 + 0)) = 1 * x.value + 0 + v := by ring
+  rw [e5, this]
+  simp
+
+/-- the second equation written by `ensure_single` under an active guard: `guard * dummy = 0` -/
+theorem good_guard_dummy (E : Env) (hok : E.ok) (dm : WireName) (g : LC) (h2 : (dm, 0) ∈ E.W)
+    (hc : Coherent E g) : Good E (conLine g.sig [(1, dm)] []) := by
+  have a2 := asg_of_mem E hok dm 0 (by simp [h2])
+  obtain ⟨u, hu, _⟩ := hc
+  apply good_con
+  simp [ConHold, Stmt.holds, hu, evalLC, a2]
+
 /-! ## extension steps -/
 
 /-- `s'` extends `s`: files grow by appending, every new equation line is good, and the flush
